@@ -133,7 +133,7 @@ fn has_guard_with_padded_extension(d: &Dag) -> bool {
 }
 
 /// programs rich in flag-sensitive constructs
-fn gen_sensitive(t: &mut Tape, flags: u32) -> Option<GenProg> {
+pub fn gen_sensitive(t: &mut Tape, flags: u32) -> Option<GenProg> {
     let mut d = Dag::new();
     fn call(d: &mut Dag, op: &[u8], args: &[u32]) -> u32 {
         let o = d.atom(op);
